@@ -238,3 +238,684 @@ theorem valid_before_valid {a s : Bytes} (hs : validUtf8 s = true) (hne : s ≠ 
         have := cont_of_range c (UInt8.le_trans hr.1 hcond.1) (UInt8.le_trans hcond.2 hr.2)
         rw [this] at hnc; cases hnc
       · rw [utf8Run_none] at hst2; cases hst2
+
+/-! ## B. trimValid / flushChunk -/
+
+theorem trimTo_valid (l : Bytes) (n : Nat) : validUtf8 (trimTo l n) = true := by
+  induction n with
+  | zero => simp [trimTo]
+  | succ n ih =>
+    unfold trimTo
+    split
+    · assumption
+    · exact ih
+
+theorem trimTo_take (l : Bytes) (n : Nat) : ∃ m, m ≤ n ∧ trimTo l n = l.take m := by
+  induction n with
+  | zero => exact ⟨0, Nat.le_refl _, by simp [trimTo]⟩
+  | succ n ih =>
+    unfold trimTo
+    split
+    · exact ⟨n + 1, Nat.le_refl _, rfl⟩
+    · obtain ⟨m, hm, h⟩ := ih
+      exact ⟨m, by omega, h⟩
+
+theorem trimValid_valid (l : Bytes) : validUtf8 (trimValid l) = true := trimTo_valid l _
+
+theorem trimValid_prefix (l : Bytes) : trimValid l <+: l := by
+  obtain ⟨m, _, h⟩ := trimTo_take l l.length
+  rw [trimValid, h]
+  exact List.take_prefix m l
+
+theorem trimValid_of_valid {l : Bytes} (h : validUtf8 l = true) : trimValid l = l := by
+  unfold trimValid
+  cases hl : l.length with
+  | zero => simp [trimTo, List.eq_nil_of_length_eq_zero hl]
+  | succ n =>
+    unfold trimTo
+    have : l.take (n + 1) = l := by rw [← hl]; exact List.take_length
+    rw [this, if_pos h]
+
+theorem trimTo_append_valid {a : Bytes} (ha : validUtf8 a = true) (b : Bytes) (n : Nat) :
+    trimTo (a ++ b) (a.length + n) = a ++ trimTo b n := by
+  induction n with
+  | zero =>
+    simp only [Nat.add_zero, trimTo, List.append_nil]
+    cases hl : a.length with
+    | zero => simp [trimTo, List.eq_nil_of_length_eq_zero hl]
+    | succ m =>
+      unfold trimTo
+      have : (a ++ b).take (m + 1) = a := by rw [← hl]; simp
+      rw [this, if_pos ha]
+  | succ n ih =>
+    have e : a.length + (n + 1) = (a.length + n) + 1 := by omega
+    rw [e]
+    unfold trimTo
+    have : (a ++ b).take (a.length + n + 1) = a ++ b.take (n + 1) := by
+      rw [List.take_append]
+      have h1 : a.take (a.length + n + 1) = a := List.take_of_length_le (by omega)
+      have h2 : a.length + n + 1 - a.length = n + 1 := by omega
+      rw [h1, h2]
+    rw [this, validUtf8_append_left ha]
+    split
+    · rfl
+    · exact ih
+
+theorem trimValid_append_valid {a : Bytes} (ha : validUtf8 a = true) (b : Bytes) :
+    trimValid (a ++ b) = a ++ trimValid b := by
+  unfold trimValid
+  rw [List.length_append, trimTo_append_valid ha]
+
+/-- the text a flush adds to the output -/
+def flushText (pending : List Bytes) : Bytes := trimValid pending.flatten
+
+theorem flush_out (st : St) : st.flush.out.flatten = st.out.flatten ++ flushText st.pending := by
+  unfold St.flush flushChunk flushText
+  simp only
+  split
+  · rename_i h
+    split at h
+    · rename_i he
+      simp [List.isEmpty_iff.mp he]
+    · cases h
+  · rename_i c h
+    split at h
+    · cases h
+    · cases h; simp
+
+theorem flush_out_chunks (st : St) :
+    st.flush.out = st.out ∨ ∃ c, st.flush.out = st.out ++ [c] ∧ validUtf8 c = true ∧ c ≠ [] := by
+  unfold St.flush flushChunk
+  simp only
+  split
+  · left; rfl
+  · rename_i c h
+    right
+    split at h
+    · cases h
+    · rename_i hne
+      cases h
+      exact ⟨_, rfl, trimValid_valid _, by intro h0; rw [h0] at hne; exact hne rfl⟩
+
+@[simp] theorem flush_pending (st : St) : st.flush.pending = [] := by
+  unfold St.flush; split <;> rfl
+@[simp] theorem flush_gen (st : St) : st.flush.gen = st.gen := by
+  unfold St.flush; split <;> rfl
+@[simp] theorem flush_np (st : St) : st.flush.numPredicted = st.numPredicted := by
+  unfold St.flush; split <;> rfl
+@[simp] theorem flush_done (st : St) : st.flush.done = st.done := by
+  unfold St.flush; split <;> rfl
+@[simp] theorem flush_cause (st : St) : st.flush.cause = st.cause := by
+  unfold St.flush; split <;> rfl
+
+/-! ## C. occurrences -/
+
+/-- `sub` occurs in `s` -/
+def Occurs (sub s : Bytes) : Prop := ∃ a b, s = a ++ sub ++ b
+
+theorem indexOf_spec (sub : Bytes) : ∀ (s : Bytes) (i : Nat), indexOf sub s = some i →
+    (∃ a b, s = a ++ sub ++ b ∧ a.length = i) ∧ ∀ a' b', s = a' ++ sub ++ b' → i ≤ a'.length := by
+  intro s
+  induction s with
+  | nil =>
+    intro i h
+    simp only [indexOf] at h
+    split at h
+    · rename_i he
+      cases h
+      exact ⟨⟨[], [], by simp [List.isEmpty_iff.mp he], rfl⟩, fun _ _ _ => Nat.zero_le _⟩
+    · cases h
+  | cons c t ih =>
+    intro i h
+    simp only [indexOf] at h
+    split at h
+    · rename_i hp
+      cases h
+      obtain ⟨b, hb⟩ := List.isPrefixOf_iff_prefix.mp hp
+      exact ⟨⟨[], b, by simp [hb], rfl⟩, fun _ _ _ => Nat.zero_le _⟩
+    · rename_i hp
+      split at h
+      · rename_i j hj
+        cases h
+        obtain ⟨⟨a, b, hab, hlen⟩, hmin⟩ := ih j hj
+        refine ⟨⟨c :: a, b, by simp [hab], by simp [hlen]⟩, ?_⟩
+        intro a' b' h'
+        cases a' with
+        | nil =>
+          exfalso; apply hp
+          exact List.isPrefixOf_iff_prefix.mpr ⟨b', by simpa using h'.symm⟩
+        | cons c' a'' =>
+          simp only [List.cons_append, List.cons.injEq] at h'
+          have := hmin a'' b' h'.2
+          simp; omega
+      · cases h
+
+theorem indexOf_none (sub : Bytes) : ∀ (s : Bytes), indexOf sub s = none → ¬ Occurs sub s := by
+  intro s
+  induction s with
+  | nil =>
+    intro h ⟨a, b, hab⟩
+    simp only [indexOf] at h
+    split at h
+    · cases h
+    · rename_i he
+      have : sub = [] := by
+        have := congrArg List.length hab
+        simp at this
+        exact List.eq_nil_of_length_eq_zero (by omega)
+      exact he (by simp [this])
+  | cons c t ih =>
+    intro h ⟨a, b, hab⟩
+    simp only [indexOf] at h
+    split at h
+    · cases h
+    · rename_i hp
+      split at h
+      · cases h
+      · rename_i hn
+        cases a with
+        | nil => exact hp (List.isPrefixOf_iff_prefix.mpr ⟨b, by simpa using hab.symm⟩)
+        | cons c' a' =>
+          simp only [List.cons_append, List.cons.injEq] at hab
+          exact ih hn ⟨a', b, hab.2⟩
+
+theorem contains_iff (s sub : Bytes) : contains s sub = true ↔ Occurs sub s := by
+  unfold contains
+  cases h : indexOf sub s with
+  | none => simp; exact indexOf_none sub s h
+  | some i =>
+    simp
+    obtain ⟨⟨a, b, hab, _⟩, _⟩ := indexOf_spec sub s i h
+    exact ⟨a, b, hab⟩
+
+theorem Occurs.indexOf {sub s : Bytes} (h : Occurs sub s) : ∃ i, indexOf sub s = some i := by
+  cases hi : Stop.indexOf sub s with
+  | none => exact absurd h (indexOf_none sub s hi)
+  | some i => exact ⟨i, rfl⟩
+
+theorem Occurs.append_left {sub s : Bytes} (x : Bytes) (h : Occurs sub s) : Occurs sub (x ++ s) := by
+  obtain ⟨a, b, hab⟩ := h
+  exact ⟨x ++ a, b, by simp [hab]⟩
+
+theorem Occurs.append_right {sub s : Bytes} (x : Bytes) (h : Occurs sub s) : Occurs sub (s ++ x) := by
+  obtain ⟨a, b, hab⟩ := h
+  exact ⟨a, b ++ x, by simp [hab]⟩
+
+theorem findStop_none {seq : Bytes} {stops : List Bytes} (h : findStop seq stops = none) :
+    ∀ t ∈ stops, ¬ Occurs t seq := by
+  intro t ht ho
+  have := List.find?_eq_none.mp h t ht
+  exact this ((contains_iff seq t).mpr ho)
+
+theorem findStop_some {seq s : Bytes} {stops : List Bytes} (h : findStop seq stops = some s) :
+    s ∈ stops ∧ Occurs s seq :=
+  ⟨List.mem_of_find?_eq_some h, (contains_iff seq s).mp (List.find?_some h)⟩
+
+theorem findStop_congr {seq seq' : Bytes} {stops : List Bytes}
+    (h : ∀ t ∈ stops, Occurs t seq ↔ Occurs t seq') : findStop seq stops = findStop seq' stops := by
+  unfold findStop
+  induction stops with
+  | nil => rfl
+  | cons t ts ih =>
+    have ht : contains seq t = contains seq' t := by
+      have := h t (List.mem_cons_self ..)
+      rw [← contains_iff, ← contains_iff] at this
+      exact Bool.eq_iff_iff.mpr this
+    simp only [List.find?, ht]
+    split
+    · rfl
+    · exact ih (fun t' ht' => h t' (List.mem_cons_of_mem _ ht'))
+
+theorem stopSuffix_false {seq : Bytes} {stops : List Bytes} (h : containsStopSuffix seq stops = false) :
+    ∀ t ∈ stops, ∀ i, 1 ≤ i → i ≤ t.length → ¬ (t.take i <:+ seq) := by
+  intro t ht i h1 hi hs
+  unfold containsStopSuffix at h
+  have h2 := List.any_eq_false.mp h t ht
+  apply h2
+  apply List.any_eq_true.mpr
+  refine ⟨i - 1, List.mem_range.mpr (by omega), ?_⟩
+  have : i - 1 + 1 = i := by omega
+  rw [this]
+  exact List.isSuffixOf_iff_suffix.mpr hs
+
+/-- a suffix of `o ++ p` no longer than `p` is a suffix of `p` -/
+theorem suffix_of_append_short {x o p : Bytes} (h : x <:+ o ++ p) (hl : x.length ≤ p.length) : x <:+ p := by
+  obtain ⟨w, hw⟩ := h
+  rcases List.append_eq_append_iff.mp hw with ⟨as, h1, h2⟩ | ⟨bs, h1, h2⟩
+  · -- o = w ++ as, x = as ++ p
+    have := congrArg List.length h2
+    simp at this
+    have : as = [] := List.eq_nil_of_length_eq_zero (by omega)
+    subst this
+    simp at h2; subst h2
+    exact List.suffix_refl _
+  · exact ⟨bs, h2.symm⟩
+
+/-- the invariant about partially matched stops: a non-empty prefix of a stop at the very end of
+    the generated text lies entirely in the pending (unsent) part -/
+def Held (stops : List Bytes) (g : Bytes) (pendLen : Nat) : Prop :=
+  ∀ t ∈ stops, ∀ i, 1 ≤ i → i ≤ t.length → t.take i <:+ g → i ≤ pendLen
+
+/-- appending a piece keeps `Held` when the piece is kept pending -/
+theorem Held.append {stops : List Bytes} {g : Bytes} {n : Nat} (h : Held stops g n) (p : Bytes) :
+    Held stops (g ++ p) (n + p.length) := by
+  intro t ht i h1 hi hs
+  obtain ⟨w, hw⟩ := hs
+  have hlen : (t.take i).length = i := by simp; omega
+  rcases List.append_eq_append_iff.mp hw with ⟨as, h1', h2⟩ | ⟨bs, h1', h2⟩
+  · -- g = w ++ as... no: w ++ take = g ++ p with g = w ++ as?  (ws=w, xs=take, ys=g, zs=p)
+    -- g = w ++ as ∧ take = as ++ p
+    have hl := congrArg List.length h2
+    rw [hlen] at hl
+    simp at hl
+    by_cases has : as.length = 0
+    · omega
+    · have hpre : as = t.take as.length := by
+        have := congrArg (List.take as.length) h2
+        simp [List.take_take] at this
+        rw [Nat.min_eq_left (by omega)] at this
+        exact this.symm
+      have := h t ht as.length (by omega) (by omega) (by rw [← hpre]; exact ⟨w, h1'.symm⟩)
+      omega
+  · -- w = g ++ bs ∧ p = bs ++ take
+    have hl := congrArg List.length h2
+    rw [List.length_append, hlen] at hl
+    omega
+
+/-- the occurrence lemma: under the two invariants, an occurrence of a stop in `o ++ pend ++ p`
+    starts inside `pend ++ p` -/
+theorem occurrence_in_pending {stops : List Bytes} {o pend p t a b : Bytes} (ht : t ∈ stops)
+    (hno : ¬ Occurs t (o ++ pend)) (hheld : Held stops (o ++ pend) pend.length)
+    (h : (o ++ pend) ++ p = a ++ t ++ b) : ∃ z, a = o ++ z ∧ pend ++ p = z ++ t ++ b := by
+  have key : o.length ≤ a.length := by
+    rw [List.append_assoc a t b] at h
+    rcases List.append_eq_append_iff.mp h with ⟨as, h1, h2⟩ | ⟨bs, h1, h2⟩
+    · -- a = (o ++ pend) ++ as
+      rw [h1]; simp
+    · -- o ++ pend = a ++ bs ∧ t ++ b = bs ++ p
+      rcases List.append_eq_append_iff.mp h2 with ⟨cs, h3, h4⟩ | ⟨ds, h3, h4⟩
+      · -- bs = t ++ cs : occurrence inside o ++ pend
+        exfalso; apply hno
+        exact ⟨a, cs, by rw [h1, h3, List.append_assoc]⟩
+      · -- t = bs ++ ds ∧ p = ds ++ b
+        by_cases hbs : bs.length = 0
+        · have : bs = [] := List.eq_nil_of_length_eq_zero hbs
+          subst this
+          have := congrArg List.length h1
+          simp at this; omega
+        · have hpre : bs = t.take bs.length := by rw [h3]; simp
+          have hlt : bs.length ≤ t.length := by rw [h3]; simp
+          have := hheld t ht bs.length (by omega) hlt (by rw [← hpre]; exact ⟨a, h1.symm⟩)
+          have hl := congrArg List.length h1
+          simp at hl; omega
+  -- now cut `a` at |o|
+  have h' : o ++ (pend ++ p) = a ++ (t ++ b) := by simpa [List.append_assoc] using h
+  rcases List.append_eq_append_iff.mp h' with ⟨as, h1, h2⟩ | ⟨bs, h1, h2⟩
+  · exact ⟨as, h1, by rw [h2, List.append_assoc]⟩
+  · have hl := congrArg List.length h1
+    simp at hl
+    have : bs = [] := List.eq_nil_of_length_eq_zero (by omega)
+    subst this
+    exact ⟨[], by simpa using h1.symm, by simpa [List.append_assoc] using h2.symm⟩
+
+/-! ## D. TruncateStop -/
+
+theorem splitBack_flatten : ∀ (lens : List Nat) (rem : Bytes), rem.length ≤ lens.sum →
+    (splitBack lens rem).1.flatten = rem := by
+  intro lens
+  induction lens with
+  | nil =>
+    intro rem h
+    have : rem = [] := List.eq_nil_of_length_eq_zero (by simpa using h)
+    simp [splitBack, this]
+  | cons len ls ih =>
+    intro rem h
+    unfold splitBack
+    split
+    · rename_i he; simp [List.isEmpty_iff.mp he]
+    · split
+      · simp
+      · rename_i hlen
+        simp only [List.flatten_cons]
+        rw [ih (rem.drop len) (by simp at h ⊢; omega)]
+        exact List.take_append_drop len rem
+
+theorem truncateStop_flatten {pieces : List Bytes} {stop : Bytes} {idx : Nat}
+    (h : indexOf stop pieces.flatten = some idx) :
+    (truncateStop pieces stop).1.flatten = pieces.flatten.take idx := by
+  unfold truncateStop
+  simp only [h]
+  apply splitBack_flatten
+  rw [List.length_take, List.length_flatten]
+  exact Nat.min_le_right _ _
+
+
+/-! ## E. the loop -/
+
+@[simp] theorem finish_out (st : St) (r : Reason) (c : Cause) : (st.finish r c).out = st.flush.out := rfl
+@[simp] theorem finish_done (st : St) (r : Reason) (c : Cause) : (st.finish r c).done = some r := rfl
+@[simp] theorem finish_cause (st : St) (r : Reason) (c : Cause) : (st.finish r c).cause = some c := rfl
+@[simp] theorem finish_gen (st : St) (r : Reason) (c : Cause) : (st.finish r c).gen = st.gen := by
+  simp [St.finish]
+@[simp] theorem finish_pending (st : St) (r : Reason) (c : Cause) : (st.finish r c).pending = [] := by
+  simp [St.finish]
+@[simp] theorem finish_np (st : St) (r : Reason) (c : Cause) :
+    (st.finish r c).numPredicted = st.numPredicted := by
+  simp [St.finish]
+
+/-- the state after `numPredicted++` and the append of the piece -/
+def St.push (st : St) (p : Bytes) : St :=
+  { st with numPredicted := st.numPredicted + 1, pending := st.pending ++ [p], gen := st.gen ++ [p] }
+
+/-- the three outcomes of the loop body for a piece -/
+theorem stepPiece_cases (stops : List Bytes) (st : St) (p : Bytes) :
+    let st1 := st.push p
+    let seq := st1.pending.flatten
+    (∃ s, findStop seq stops = some s ∧
+        stepPiece stops st p =
+          ({ st1 with pending := (truncateStop st1.pending s).1 }).finish .stop (.stopString s)) ∨
+    (findStop seq stops = none ∧ (containsStopSuffix seq stops = true ∨ incompleteUnicode seq = true) ∧
+        stepPiece stops st p = st1) ∨
+    (findStop seq stops = none ∧ containsStopSuffix seq stops = false ∧ incompleteUnicode seq = false ∧
+        stepPiece stops st p = st1.flush) := by
+  intro st1 seq
+  unfold stepPiece
+  simp only
+  cases hf : findStop (st.pending ++ [p]).flatten stops with
+  | some s => left; exact ⟨s, hf, rfl⟩
+  | none =>
+    right
+    cases hs : containsStopSuffix (st.pending ++ [p]).flatten stops with
+    | true => left; exact ⟨hf, Or.inl hs, rfl⟩
+    | false =>
+      cases hi : incompleteUnicode (st.pending ++ [p]).flatten with
+      | true => left; exact ⟨hf, Or.inr hi, rfl⟩
+      | false => right; exact ⟨hf, hs, hi, rfl⟩
+
+/-- induction over the loop: `Inv` holds between iterations, `Post` of every way to leave it -/
+theorem run_ind {limit : Int} {stops : List Bytes} {Inv Post : St → Prop}
+    (hrun : ∀ st, Inv st → ¬ (limit > 0 ∧ (st.numPredicted : Int) ≥ limit) → Post st)
+    (hlim : ∀ st, Inv st → (limit > 0 ∧ (st.numPredicted : Int) ≥ limit) →
+      Post (st.finish .length .limit))
+    (heos : ∀ st, Inv st → ¬ (limit > 0 ∧ (st.numPredicted : Int) ≥ limit) →
+      Post (({ st with numPredicted := st.numPredicted + 1 }).finish .stop .eos))
+    (hstop : ∀ st p, Inv st → ¬ (limit > 0 ∧ (st.numPredicted : Int) ≥ limit) →
+      (stepPiece stops st p).done.isSome = true → Post (stepPiece stops st p))
+    (hcont : ∀ st p, Inv st → ¬ (limit > 0 ∧ (st.numPredicted : Int) ≥ limit) →
+      (stepPiece stops st p).done.isSome = false → Inv (stepPiece stops st p)) :
+    ∀ evs st, Inv st → Post (run limit stops st evs) := by
+  intro evs
+  induction evs with
+  | nil =>
+    intro st hi
+    unfold run
+    split
+    · rename_i h; exact hlim st hi h
+    · rename_i h; exact hrun st hi h
+  | cons ev rest ih =>
+    intro st hi
+    unfold run
+    split
+    · rename_i h; exact hlim st hi h
+    · rename_i h
+      cases ev with
+      | eos => exact heos st hi h
+      | piece p =>
+        simp only
+        split
+        · rename_i hd; exact hstop st p hi h hd
+        · rename_i hd
+          exact ih _ (hcont st p hi h (by simpa using hd))
+
+/-! ## F. the main invariant (valid-UTF-8 generated text, valid non-empty stops) -/
+
+/-- the stops the stop clauses speak about: non-empty and valid UTF-8 (they reach the runner
+    through JSON) -/
+def StopsOk (stops : List Bytes) : Prop := ∀ t ∈ stops, t ≠ [] ∧ validUtf8 t = true
+
+/-- holds between iterations while the sequence is running -/
+structure Inv (stops : List Bytes) (st : St) : Prop where
+  done : st.done = none
+  cause : st.cause = none
+  split : st.genText = st.outText ++ st.pending.flatten
+  outValid : validUtf8 st.outText = true
+  noOcc : ∀ t ∈ stops, ¬ Occurs t st.genText
+  held : Held stops st.genText st.pending.flatten.length
+
+/-- what is true of the state in which the loop is left -/
+def Post (stops : List Bytes) (f : St) : Prop :=
+  match f.cause with
+  | none => Inv stops f
+  | some (.stopString s) =>
+      f.done = some .stop ∧ s ∈ stops ∧ findStop f.genText stops = some s ∧
+      (∃ idx, indexOf s f.genText = some idx ∧ f.outText = f.genText.take idx) ∧
+      (∀ t ∈ stops, ¬ Occurs t f.gen.dropLast.flatten) ∧ f.pending = []
+  | some .eos =>
+      f.done = some .stop ∧ f.outText = trimValid f.genText ∧ (∀ t ∈ stops, ¬ Occurs t f.genText) ∧
+      f.pending = []
+  | some .limit =>
+      f.done = some .length ∧ f.outText = trimValid f.genText ∧ (∀ t ∈ stops, ¬ Occurs t f.genText) ∧
+      f.pending = []
+
+theorem inv_init (stops : List Bytes) (h : StopsOk stops) : Inv stops init := by
+  refine ⟨rfl, rfl, rfl, by decide, ?_, ?_⟩
+  · intro t ht ⟨a, b, hab⟩
+    have : t = [] := by
+      have := congrArg List.length hab
+      simp [init, St.genText] at this
+      exact List.eq_nil_of_length_eq_zero (by omega)
+    exact (h t ht).1 this
+  · intro t ht i h1 hi hs
+    have := hs.length_le
+    rw [List.length_take] at this
+    have h0 : init.genText.length = 0 := rfl
+    omega
+
+theorem post_finish_flush {stops : List Bytes} {st : St} (hi : Inv stops st) (r : Reason) (c : Cause) :
+    (st.finish r c).outText = trimValid (st.finish r c).genText ∧
+    (∀ t ∈ stops, ¬ Occurs t (st.finish r c).genText) := by
+  constructor
+  · show (st.finish r c).out.flatten = trimValid (st.finish r c).gen.flatten
+    rw [finish_out, finish_gen, flush_out]
+    have := hi.split
+    simp only [St.genText, St.outText] at this
+    have hov : validUtf8 st.out.flatten = true := hi.outValid
+    rw [this, flushText, trimValid_append_valid hov]
+  · intro t ht
+    show ¬ Occurs t (st.finish r c).gen.flatten
+    rw [finish_gen]; exact hi.noOcc t ht
+
+/-- one iteration with a piece, when the text generated so far (this piece included) is a prefix
+    of valid UTF-8 -/
+theorem step_main {stops : List Bytes} (hok : StopsOk stops) {st : St} (p : Bytes)
+    (hi : Inv stops st) (hvp : ValidPrefix (st.genText ++ p)) :
+    let st' := stepPiece stops st p
+    (st'.done.isSome = true → Post stops st') ∧ (st'.done.isSome = false → Inv stops st') := by
+  intro st'
+  have hsplit : st.gen.flatten = st.out.flatten ++ st.pending.flatten := hi.split
+  have hov : validUtf8 st.out.flatten = true := hi.outValid
+  have hgen' : (st.push p).gen.flatten = st.out.flatten ++ ((st.pending ++ [p]).flatten) := by
+    show (st.gen ++ [p]).flatten = _
+    simp [List.flatten_append, hsplit, List.append_assoc]
+  have hseq : (st.pending ++ [p]).flatten = st.pending.flatten ++ p := by simp
+  have hvp' : ValidPrefix (st.out.flatten ++ (st.pending.flatten ++ p)) := by
+    have : st.genText ++ p = st.out.flatten ++ (st.pending.flatten ++ p) := by
+      show st.gen.flatten ++ p = _
+      rw [hsplit, List.append_assoc]
+    rw [← this]; exact hvp
+  have hvseq : ValidPrefix (st.pending.flatten ++ p) := ValidPrefix.right hov hvp'
+  -- an occurrence of a stop in the new text lies in the pending part
+  have hocc : ∀ t ∈ stops, ∀ a b, (st.out.flatten ++ st.pending.flatten) ++ p = a ++ t ++ b →
+      ∃ z, a = st.out.flatten ++ z ∧ st.pending.flatten ++ p = z ++ t ++ b := by
+    intro t ht a b h
+    have hno : ¬ Occurs t (st.out.flatten ++ st.pending.flatten) := by
+      rw [← hsplit]; exact hi.noOcc t ht
+    have hheld : Held stops (st.out.flatten ++ st.pending.flatten) st.pending.flatten.length := by
+      rw [← hsplit]; exact hi.held
+    exact occurrence_in_pending ht hno hheld h
+  rcases stepPiece_cases stops st p with ⟨s, hs, h⟩ | ⟨hnone, _, h⟩ | ⟨hnone, hsuf, hinc, h⟩
+  · -- a stop was found
+    have hst' : st' = _ := h
+    rw [hst']
+    refine ⟨fun _ => ?_, fun hd => by simp at hd⟩
+    obtain ⟨hsmem, hsocc⟩ := findStop_some hs
+    change Occurs s (st.pending ++ [p]).flatten at hsocc
+    change findStop (st.pending ++ [p]).flatten stops = some s at hs
+    rw [hseq] at hsocc hs
+    obtain ⟨idx, hidx⟩ := hsocc.indexOf
+    obtain ⟨⟨a, b, hab, halen⟩, hmin⟩ := indexOf_spec s _ idx hidx
+    have hva : validUtf8 a = true := by
+      apply valid_before_valid (hok s hsmem).2 (hok s hsmem).1
+      have : ValidPrefix ((a ++ s) ++ b) := by rw [← hab]; exact hvseq
+      exact this.left
+    have htake : (st.pending.flatten ++ p).take idx = a := by
+      rw [hab, ← halen]; simp [List.append_assoc]
+    -- the output
+    have hout : (({ st.push p with pending := (truncateStop (st.push p).pending s).1 }).finish
+        .stop (.stopString s)).out.flatten = st.out.flatten ++ a := by
+      rw [finish_out, flush_out]
+      show st.out.flatten ++ flushText (truncateStop (st.pending ++ [p]) s).1 = _
+      have hidx' : indexOf s (st.pending ++ [p]).flatten = some idx := by rw [hseq]; exact hidx
+      rw [flushText, truncateStop_flatten hidx', hseq, htake, trimValid_of_valid hva]
+    have hgenf : (({ st.push p with pending := (truncateStop (st.push p).pending s).1 }).finish
+        .stop (.stopString s)).gen.flatten = st.out.flatten ++ (st.pending.flatten ++ p) := by
+      rw [finish_gen]; show (st.push p).gen.flatten = _; rw [hgen', hseq]
+    have hG : st.out.flatten ++ (st.pending.flatten ++ p) = (st.out.flatten ++ a) ++ s ++ b := by
+      rw [hab]; simp [List.append_assoc]
+    show Post stops _
+    unfold Post
+    simp only [finish_cause, finish_done, finish_pending, St.genText, St.outText, true_and, and_true]
+    rw [hgenf, hout]
+    refine ⟨hsmem, ?_, ?_, ?_⟩
+    · rw [← hs]
+      apply findStop_congr
+      intro t ht
+      constructor
+      · rintro ⟨a', b', h'⟩
+        have h'' : (st.out.flatten ++ st.pending.flatten) ++ p = a' ++ t ++ b' := by
+          rw [List.append_assoc]; exact h'
+        obtain ⟨z, _, hz⟩ := hocc t ht a' b' h''
+        exact ⟨z, b', hz⟩
+      · exact Occurs.append_left _
+    · have hOcc : Occurs s (st.out.flatten ++ (st.pending.flatten ++ p)) := ⟨_, _, hG⟩
+      obtain ⟨j, hj⟩ := hOcc.indexOf
+      obtain ⟨⟨a', b', hab', halen'⟩, hmin'⟩ := indexOf_spec s _ j hj
+      have h'' : (st.out.flatten ++ st.pending.flatten) ++ p = a' ++ s ++ b' := by
+        rw [List.append_assoc]; exact hab'
+      obtain ⟨z, hz1, hz2⟩ := hocc s hsmem a' b' h''
+      have h1 := hmin z b' hz2
+      have h2 := hmin' _ _ hG
+      have hjeq : j = st.out.flatten.length + idx := by
+        rw [← halen', hz1] at *
+        simp at h2 ⊢
+        omega
+      refine ⟨j, hj, ?_⟩
+      rw [hjeq, hG, ← halen]
+      have hl : (st.out.flatten ++ a).length = st.out.flatten.length + a.length := List.length_append
+      rw [List.append_assoc (st.out.flatten ++ a) s b, ← hl, List.take_left]
+    · intro t ht
+      rw [finish_gen]
+      show ¬ Occurs t ((st.push p).gen.dropLast.flatten)
+      have : (st.push p).gen.dropLast = st.gen := by
+        show (st.gen ++ [p]).dropLast = st.gen
+        simp
+      rw [this]; exact hi.noOcc t ht
+  · -- held back (stop suffix or incomplete character)
+    have hst' : st' = st.push p := h
+    rw [hst']
+    refine ⟨fun hd => ?_, fun _ => ?_⟩
+    · have : (st.push p).done = none := hi.done
+      rw [this] at hd; cases hd
+    · change findStop (st.pending ++ [p]).flatten stops = none at hnone
+      refine ⟨hi.done, hi.cause, hgen', hov, ?_, ?_⟩
+      · intro t ht ⟨a, b, hab⟩
+        have hab' : (st.push p).gen.flatten = a ++ t ++ b := hab
+        rw [hgen', hseq, ← List.append_assoc] at hab'
+        obtain ⟨z, _, hz⟩ := hocc t ht a b hab'
+        exact findStop_none hnone t ht ⟨z, b, by rw [hseq]; exact hz⟩
+      · show Held stops (st.push p).gen.flatten (st.pending ++ [p]).flatten.length
+        rw [hgen', hseq, ← List.append_assoc, List.length_append, ← hsplit]
+        exact hi.held.append p
+  · -- flushed
+    have hst' : st' = (st.push p).flush := h
+    rw [hst']
+    change findStop (st.pending ++ [p]).flatten stops = none at hnone
+    change containsStopSuffix (st.pending ++ [p]).flatten stops = false at hsuf
+    change incompleteUnicode (st.pending ++ [p]).flatten = false at hinc
+    have hvalid : validUtf8 (st.pending ++ [p]).flatten = true := by
+      apply valid_of_not_incomplete _ hinc
+      rw [hseq]; exact hvseq
+    have hd : (st.push p).flush.done = none := by rw [flush_done]; exact hi.done
+    refine ⟨fun h => (by rw [hd] at h; cases h), fun _ => ?_⟩
+    have hout : (st.push p).flush.out.flatten = st.out.flatten ++ (st.pending ++ [p]).flatten := by
+      rw [flush_out]
+      show st.out.flatten ++ flushText (st.pending ++ [p]) = _
+      rw [flushText, trimValid_of_valid hvalid]
+    refine ⟨hd, by rw [flush_cause]; exact hi.cause, ?_, ?_, ?_, ?_⟩
+    · show (st.push p).flush.gen.flatten = (st.push p).flush.out.flatten ++ (st.push p).flush.pending.flatten
+      rw [flush_gen, flush_pending, hout, hgen']; simp
+    · show validUtf8 (st.push p).flush.out.flatten = true
+      rw [hout]; exact validUtf8_append hov hvalid
+    · intro t ht ⟨a, b, hab⟩
+      have hab' : (st.push p).flush.gen.flatten = a ++ t ++ b := hab
+      rw [flush_gen, hgen', hseq, ← List.append_assoc] at hab'
+      obtain ⟨z, _, hz⟩ := hocc t ht a b hab'
+      exact findStop_none hnone t ht ⟨z, b, by rw [hseq]; exact hz⟩
+    · show Held stops (st.push p).flush.gen.flatten (st.push p).flush.pending.flatten.length
+      rw [flush_gen, flush_pending, hgen']
+      intro t ht i h1 hile hs
+      exfalso
+      have hheld : Held stops ((st.out.flatten ++ st.pending.flatten) ++ p)
+          (st.pending.flatten.length + p.length) := by
+        rw [← hsplit]; exact hi.held.append p
+      rw [hseq, ← List.append_assoc] at hs
+      have hle := hheld t ht i h1 hile hs
+      have hs' : t.take i <:+ st.out.flatten ++ (st.pending.flatten ++ p) := by
+        rw [← List.append_assoc]; exact hs
+      have := suffix_of_append_short hs' (by rw [List.length_take, List.length_append]; omega)
+      exact stopSuffix_false hsuf t ht i h1 hile (by rw [hseq]; exact this)
+
+theorem stepPiece_gen (stops : List Bytes) (st : St) (p : Bytes) :
+    (stepPiece stops st p).gen = st.gen ++ [p] := by
+  rcases stepPiece_cases stops st p with ⟨s, _, h⟩ | ⟨_, _, h⟩ | ⟨_, _, _, h⟩
+  · rw [h, finish_gen]; rfl
+  · rw [h]; rfl
+  · rw [h, flush_gen]; rfl
+
+theorem stepPiece_genText (stops : List Bytes) (st : St) (p : Bytes) :
+    (stepPiece stops st p).genText = st.genText ++ p := by
+  show (stepPiece stops st p).gen.flatten = st.gen.flatten ++ p
+  rw [stepPiece_gen]; simp
+
+/-- **The whole run.** For every script, every limit and every list of valid non-empty stops: if
+    the text generated up to the terminating event is a prefix of valid UTF-8, the final state
+    satisfies `Post`. -/
+theorem run_main {stops : List Bytes} (hok : StopsOk stops) (limit : Int) (evs : List Ev) :
+    ValidPrefix (run limit stops init evs).genText → Post stops (run limit stops init evs) := by
+  refine run_ind (limit := limit) (stops := stops)
+    (Inv := fun st => ValidPrefix st.genText → Inv stops st)
+    (Post := fun f => ValidPrefix f.genText → Post stops f) ?_ ?_ ?_ ?_ ?_ evs init
+    (fun _ => inv_init stops hok)
+  · intro st hi _ hvp
+    have := hi hvp
+    unfold Post; rw [this.cause]; exact this
+  · intro st hi _ hvp
+    have hinv : Inv stops st := hi (by simpa [St.genText] using hvp)
+    have := post_finish_flush hinv .length .limit
+    unfold Post; rw [finish_cause]
+    exact ⟨rfl, this.1, this.2, finish_pending _ _ _⟩
+  · intro st hi _ hvp
+    have hinv : Inv stops st := hi (by simpa [St.genText] using hvp)
+    have hinv' : Inv stops { st with numPredicted := st.numPredicted + 1 } :=
+      ⟨hinv.done, hinv.cause, hinv.split, hinv.outValid, hinv.noOcc, hinv.held⟩
+    have := post_finish_flush hinv' .stop .eos
+    unfold Post; rw [finish_cause]
+    exact ⟨rfl, this.1, this.2, finish_pending _ _ _⟩
+  · intro st p hi _ hd hvp
+    rw [stepPiece_genText] at hvp
+    exact (step_main hok p (hi hvp.left) hvp).1 hd
+  · intro st p hi _ hd hvp
+    rw [stepPiece_genText] at hvp
+    exact (step_main hok p (hi hvp.left) hvp).2 hd
+
+end OllamaVerif.Stop
